@@ -67,7 +67,9 @@ def sw_expr(e):
     if k == 'idx': return '%s[%s]' % (sw_expr(e[1]), sw_expr(e[2]))
     if k == 'enum':
         t = e[1]
-        if t[2][e[2]] == TUNIT: return '%s::V%d' % (t[1], e[2])
+        if t[2][e[2]] == TUNIT:
+            if e[3] != ('tup', TUNIT, []): raise ValueError('unit variant with a non-literal payload: %r' % (e[3],))
+            return '%s::V%d' % (t[1], e[2])
         return '%s::V%d(%s)' % (t[1], e[2], sw_expr(e[3]))
     if k == 'call': return '%s(%s)' % (e[1], ', '.join(sw_expr(x) for x in e[3]))
     raise ValueError(e)
@@ -397,7 +399,11 @@ class Gen:
                 if rng.random() < 0.5: a, alo, ahi = self.lit(w, c), c, c
                 else: b, blo, bhi = self.lit(w, c), c, c
                 self.stat('identity_const_operand')
-            bad = self.noviol == 0 and rng.random() < self.viol
+            # Deliberate violations only where the trap is explicit control flow that survives when the value is unused:
+            # u8/u16/u32 `+` and `*` (ops.sw compares and calls __revert).  A u64/u256 operation, any `/ % -`, traps inside
+            # the VM instruction itself, and the compiler deletes such an instruction when its result is dead (known
+            # finding dead-trapping-arithmetic-eliminated); those traps are exercised by the sweeps/corpora, which log the result.
+            bad = self.noviol == 0 and w < 64 and op in ('Add', 'Mul') and rng.random() < self.viol * 4
             if bad: self.stat('violation_injected')
             self.stat('op_' + op)
             if op == 'Add':
@@ -497,7 +503,10 @@ class Gen:
             return ('arr', t[1], [self.g_expr(t[1], sc, d - 1) for _ in range(t[2])])
         if k == 'enum':
             tag = rng.randrange(len(t[2]))
-            return ('enum', t, tag, self.g_expr(t[2][tag], sc, d - 1))
+            # a unit variant is printed without payload (`E::V0`): its payload must be the plain unit value, never an
+            # expression with effects (a call returning unit would be evaluated by the reference and dropped by the printer)
+            pay = ('tup', TUNIT, []) if t[2][tag] == TUNIT else self.g_expr(t[2][tag], sc, d - 1)
+            return ('enum', t, tag, pay)
         raise ValueError(t)
 
     def safe_index(self, n, sc, d):
@@ -875,8 +884,13 @@ class Gen:
         sites = []
         def walk(x, path):
             if isinstance(x, tuple):
-                if len(x) == 4 and x[0] == 'int' and not x[3]: sites.append((path, 'lit'))
-                if len(x) == 5 and x[0] == 'bin' and x[1] in ('BAnd', 'BOr', 'BXor', 'Lt', 'Le', 'Gt', 'Ge', 'Eq', 'Ne'): sites.append((path, 'op'))
+                # only comparisons are mutated (operator, or a literal operand): they cannot make an arithmetic
+                # operation elsewhere leave the interval it was generated for
+                if len(x) == 5 and x[0] == 'bin' and x[1] in CMP:
+                    sites.append((path, 'op'))
+                    for i in (3, 4):
+                        y = x[i]
+                        if isinstance(y, tuple) and len(y) == 4 and y[0] == 'int' and not y[3]: sites.append((path + [i], 'lit'))
                 for i, y in enumerate(x):
                     if x[0] == 'while' and i == 1: continue
                     walk(y, path + [i])
@@ -888,7 +902,7 @@ class Gen:
         def edit(x, path):
             if not path:
                 if kind == 'lit': return ('int', x[1], x[2] ^ 1, x[3])
-                alt = {'BAnd': 'BOr', 'BOr': 'BXor', 'BXor': 'BAnd', 'Lt': 'Le', 'Le': 'Lt', 'Gt': 'Ge', 'Ge': 'Gt', 'Eq': 'Ne', 'Ne': 'Eq'}[x[1]]
+                alt = {'Lt': 'Le', 'Le': 'Lt', 'Gt': 'Ge', 'Ge': 'Gt', 'Eq': 'Ne', 'Ne': 'Eq'}[x[1]]
                 return ('bin', alt) + x[2:]
             i = path[0]
             if isinstance(x, tuple): return x[:i] + (edit(x[i], path[1:]),) + x[i + 1:]
@@ -993,14 +1007,13 @@ def identity_trap_corpus(tag, full=False):
                                 if op in ('Div', 'Mod'):
                                     if not const_left and x != 1: continue
                                 else:
-                                    canon = [((M if a is None else a), b) for a, b in CANON[op]]
-                                    if (x, y) not in canon and (y, x) not in canon: continue
-                                    if op == 'Sub' and (x, y) != (0, 1): continue
+                                    continue      # overflow boundaries: boundary_corpus
                             g = new()
                             g.p.main = [('log', U64, g.lit(64, len(progs), True)),
                                         ('log', TBOOL if op in CMP else ('int', w), g.apply_form(form, op, w, ca, cb)),
                                         ('log', U64, g.lit(64, 7, True))]
                             g.stats['identity_trap_reverting'] = 1
+                            g.meta = dict(op=op, width=w, a=x, b=y, form=form)
                         else:
                             ok[FAM.get(op, 'cmp')].append((form, op, w, ca, cb))
         for fam, sts in ok.items():
@@ -1009,4 +1022,54 @@ def identity_trap_corpus(tag, full=False):
                 g.p.main = [('log', TBOOL if st[1] in CMP else ('int', w), g.apply_form(*st)) for st in sts]
                 g.stats['identity_trap_ok_ops'] = len(sts)
     size = 32
+    return [progs[i:i + size] for i in range(0, len(progs), size)]
+
+def boundary_pairs(op, w, full):
+    """operand pairs whose exact result is 2^w - 1, 2^w, 2^w + 1 (resp. 0 / -1 for subtraction)"""
+    M = MAXW[w]
+    H = 1 << (w - 1)
+    if op == 'Add':
+        ps = [(M, 1), (M - 1, 1), (1, M), (H, H), (H, H - 1), (M, 0), (M - 1, 2)]
+    elif op == 'Sub':
+        ps = [(0, 1), (0, 0), (1, 1), (1, 2), (M, M), (M - 1, M), (H, H), (H, H + 1), (H - 1, H)]
+    elif op == 'Mul':
+        ks = range(1, w) if full else sorted({1, w // 2, w - 1} & set(range(1, w)))
+        ps = []
+        for k in ks:
+            ps += [(1 << k, 1 << (w - k)), (1 << k, (1 << (w - k)) - 1), ((1 << k) + 1, 1 << (w - k))]
+            if full: ps.append((1 << (w - k), 1 << k))
+        ps += [(M, 1), (M, 2), (1, M), ((1 << (w // 2)) + 1, (1 << (w // 2)) - 1), ((1 << (w // 2)) + 1, 1 << (w // 2))]
+    else:
+        ps = []
+    return [(a, b) for a, b in dict.fromkeys(ps) if 0 <= a <= M and 0 <= b <= M]
+
+def boundary_corpus(tag, full=False):
+    """for + - * and every width: operands at the overflow boundary, both hidden behind #[inline(never)]
+    identities (run-time arithmetic of ops.sw).  full=True (used as the search when C01's proof or T-gen breaks, and
+    in the thorough tier) takes every power-of-two split for `*`.  Reverting cases are programs of their own and
+    carry (op, width, a, b)."""
+    import random as _r
+    rng = _r.Random(54321)
+    progs = []
+    def new():
+        g = Gen(rng, '%sp%03d' % (tag, len(progs)), viol=0.0)
+        progs.append(g)
+        return g
+    for w in (8, 16, 32, 64, 256):
+        for op in ('Add', 'Sub', 'Mul'):
+            oks = []
+            for a, b in boundary_pairs(op, w, full):
+                if reverts_op(op, w, a, b):
+                    g = new()
+                    g.p.main = [('log', ('int', w), g.apply_form('direct', op, w, (a, False), (b, False))), ('log', U64, g.lit(64, 7, True))]
+                    g.meta = dict(op=op, width=w, a=a, b=b, form='direct')
+                    g.stats['boundary_reverting'] = 1
+                else:
+                    oks.append((a, b))
+            if oks:
+                g = new()
+                g.p.main = [('log', ('int', w), g.apply_form('direct', op, w, (a, False), (b, False))) for a, b in oks]
+                g.meta = dict(op=op, width=w, pairs=[(a, b) for a, b in oks])
+                g.stats['boundary_ok_ops'] = len(oks)
+    size = 40
     return [progs[i:i + size] for i in range(0, len(progs), size)]
